@@ -145,3 +145,27 @@ Check ser_writes_are_pieces.          (* any sequence of Ser.write calls = write
 Check ser_writes_budget_are_slice_pieces.
 Check record_flush_witness.            (* the record {a:int,b:string} presented as (b,a): flush through one bare write under [Accept 1] *)
 Check write_once_vec_invisible.
+
+(** ** ... and for the serializer itself (proofs/SerBudgetProofs.v: a simulation over the whole `ser` family, buffered record fields
+    included): into a fixed-size slice of b bytes the run is the Vec run when the bytes fit, and otherwise Err (never Ok, never a new
+    panic) with the first b bytes in place *)
+Require Import SerHistory SerBudgetProofs.
+Theorem C13_fixed_slice_whole_serializer :
+  forall (Sc : fschema) (slow : bool) (b : N) (v : sval) (bs : bytes),
+  to_datum Sc slow v = Ok bs ->
+  ((nlen bs <= b)%N -> to_datum_sink Sc slow b v = (Ok bs, bs)) /\
+  ((b < nlen bs)%N -> to_datum_sink Sc slow b v = (Err EIo, firstn (N.to_nat b) bs)).
+Proof. exact to_datum_budget_spec. Qed.
+
+Theorem C13_fixed_slice_ok_iff :
+  forall (Sc : fschema) (slow : bool) (b : N) (v : sval) (bs : bytes),
+  to_datum_budget Sc slow b v = Ok bs <-> to_datum Sc slow v = Ok bs /\ (nlen bs <= b)%N.
+Proof. exact to_datum_budget_ok_iff. Qed.
+
+Theorem C13_fixed_slice_no_new_panic :
+  forall (Sc : fschema) (slow : bool) (b : N) (v : sval) (p : site),
+  to_datum_budget Sc slow b v = Panic p -> to_datum Sc slow v = Panic p.
+Proof. exact to_datum_budget_no_new_panic. Qed.
+
+Check ser_budget_simulation.
+Check hist_step_overflow_same_pools_refuted.   (* on overflow the pools need not equal those of the Vec job: clean, not equal *)
